@@ -42,6 +42,13 @@ CLAIMED = {
          "Multi-point NNLO runs across thresholds check that the beta0 in the (2,0,1,0) tensors is beta0(nf) and that results depend on thresholds only through the count.",
          "Trusted: Coq kernel+vm_compute; harness; np.digitize/eko Atlas modelled (counting), not verified; that the scale-variation betas use this nf is shown "
          "on real runs by the patrol here and belongs to the C05 model.", "4 C06"),
+ "C05": ("Coq theorems (list/filter algebra, computation on the coefficient tables) on a hand-written model of scale_variations.py / sector_mapping / the SV part of compute_local; "
+         "tied by differential correspondence on the real ScaleVariations manager serving sequences of nf",
+         "Proof: for any kernel entries, operator matrices, projectors and nf, switching FactScaleVar (RenScaleVar) off yields exactly the lnF=0 (lnR=0) sub-list of the all-on result, "
+         "both off leaves the central orders; intrinsic channels never get lnF; the diff step spawns from an a_s^1 / a_s^2 term exactly the terms with coefficients beta0, beta1, 2 beta0, beta0^2 "
+         "and the binomial split of ln(muF2/muR2)^n that solve the muR RGE, nothing at LO/NLO accuracy; the per-sector operator table is the DGLAP solution for muF (PTO<=2). "
+         "Real multi-nf runs check the relations with beta(nf), rebuild the muF tensors with fresh operators, and compare the four switch combinations.",
+         "Trusted: Coq kernel+vm_compute; harness; H3 (composite labels = operator products) unproved; eko beta/projectors are inputs (betas compared). muF at PTO 3 is not implemented in yadism.", "4 C05"),
  "C11": ("Coq theorems (field; list induction for the dict algebra) on hand-written models of ESFResult arithmetic and exs.py; models tied by differential correspondence",
          "Proof: every entry of every order of a cross section is c1 F2 + c2 FL + c3 xF3 (third SF skipped iff c3 = 0); for all ten kinds the coefficients equal the documented "
          "(N, -N yL/y+, s N y-/y+) for any x, y, Q2, GF, MW, hadron mass; ESFResult +,-,* are entry-wise linear. Real runs compare XS tensors with the SF tensors of the same run.",
